@@ -250,8 +250,8 @@ pub fn lay_case_strategy(g: LayGen) -> BoxedStrategy<Case> {
 
 pub fn serde_case_strategy() -> BoxedStrategy<Case> {
     let u = prop_oneof![2 => Just(3u64), 3 => Just(10u64), 2 => Just(60u64), 1 => Just(5000u64)];
-    (u, plan_strategy(), 0u64..2, 0u64..4, 0u64..8, 0u32..100, 0u64..40, 0u32..100)
-        .prop_flat_map(move |(u, plan, coll, mode, hint, errp, pre, be)| {
+    (u, plan_strategy(), 0u64..2, 0u64..4, 0u64..8, 0u32..100, 0u64..40, 0u32..100, 0u64..100)
+        .prop_flat_map(move |(u, plan, coll, mode, hint, errp, pre, be, etp)| {
             let n = prop_oneof![4 => 0usize..12, 3 => 12usize..80, 1 => 80usize..400];
             (n, 0u64..65536).prop_flat_map(move |(n, errfrac)| {
                 vec((0..u, 0u64..1000), n..=n).prop_map(move |entries| {
@@ -261,6 +261,9 @@ pub fn serde_case_strategy() -> BoxedStrategy<Case> {
                     c.set("mode", mode);
                     c.set("hint", hint);
                     c.set("pre", pre);
+                    // 30% of the cases use a plain element type (zero-sized, u8, u64, bool, String) instead
+                    // of the tracked pair
+                    c.set("etype", if etp < 30 { 1 + etp % 6 } else { 0 });
                     c.set("backend", (be < 20) as u64);
                     // an error in 35% of the cases, at an element position inside (or just past) the stream
                     let units = entries.len() as u64 * if coll == 1 { 1 } else { 2 };
